@@ -40,6 +40,8 @@ pub struct RunOpts {
     /// RLIMIT_FSIZE in bytes with SIGXFSZ ignored
     pub fsize_limit: Option<u64>,
     pub timeout_s: Option<u64>,
+    /// file to connect to stdin
+    pub stdin_file: Option<PathBuf>,
 }
 
 static WATCH: Mutex<Option<(i32, Instant)>> = Mutex::new(None);
@@ -75,7 +77,19 @@ pub fn run_bin(bin: &Path, cwd: &Path, args: &[String], opts: &RunOpts, io_dir: 
     for (k, v) in &opts.env {
         cmd.env(k, v);
     }
-    cmd.stdin(Stdio::null()).stdout(out_f).stderr(err_f);
+    match &opts.stdin_file {
+        Some(p) => {
+            cmd.stdin(fs::File::open(p).expect("stdin file"));
+        }
+        None => {
+            cmd.stdin(Stdio::null());
+        }
+    }
+    if opts.fsize_limit.is_some() {
+        // RLIMIT_FSIZE would also cut the captured stdout/stderr files: use pipes there
+        return run_piped(cmd, opts);
+    }
+    cmd.stdout(out_f).stderr(err_f);
     let fsize = opts.fsize_limit;
     unsafe {
         cmd.pre_exec(move || {
@@ -117,6 +131,38 @@ pub fn run_bin(bin: &Path, cwd: &Path, args: &[String], opts: &RunOpts, io_dir: 
     let _ = fs::remove_file(&out_path);
     let _ = fs::remove_file(&err_path);
     RunOut { exit, stdout, stderr, cpu_s }
+}
+
+fn run_piped(mut cmd: Command, opts: &RunOpts) -> RunOut {
+    cmd.stdout(Stdio::piped()).stderr(Stdio::piped());
+    let fsize = opts.fsize_limit;
+    unsafe {
+        cmd.pre_exec(move || {
+            libc::umask(0o022);
+            if let Some(l) = fsize {
+                libc::signal(libc::SIGXFSZ, libc::SIG_IGN);
+                let r = libc::rlimit { rlim_cur: l, rlim_max: l };
+                libc::setrlimit(libc::RLIMIT_FSIZE, &r);
+            }
+            Ok(())
+        });
+    }
+    let child = cmd.spawn().expect("spawn rapidquilt");
+    let pid = child.id() as i32;
+    let timeout = opts.timeout_s.unwrap_or(DEFAULT_TIMEOUT_S);
+    let deadline = Instant::now() + Duration::from_secs(timeout);
+    *WATCH.lock().unwrap() = Some((pid, deadline));
+    let out = child.wait_with_output().expect("wait");
+    *WATCH.lock().unwrap() = None;
+    let timed_out = Instant::now() > deadline;
+    let exit = if let Some(c) = out.status.code() {
+        Exit::Code(c)
+    } else if timed_out && out.status.signal() == Some(libc::SIGKILL) {
+        Exit::Timeout
+    } else {
+        Exit::Signal(out.status.signal().unwrap_or(-1))
+    };
+    RunOut { exit, stdout: out.stdout, stderr: out.stderr, cpu_s: 0.0 }
 }
 
 /// One entry of a tree snapshot.
